@@ -43,8 +43,13 @@ constexpr auto round_check(T const x) noexcept -> T
                       // already integral (and need not fit llint_t)
             abs(x) >= T(1) / etl::numeric_limits<T>::epsilon() ? x
                                                                :
-                                                       // else
-            sgn(x) * round_int(abs(x))
+                                                       // only halves are left: |x| + 1/2 is exact, and the rounded value
+                                                       // (up to 2^digits-1) need not fit llint_t
+            abs(x) >= T(0.5) / etl::numeric_limits<T>::epsilon()
+                ? (abs(x) == floor_check(abs(x)) ? x : sgn(x) * (abs(x) + T(0.5)))
+                :
+                // else
+                sgn(x) * round_int(abs(x))
     );
 }
 
